@@ -191,7 +191,7 @@ func (s *setupWorker) setup(ctx context.Context, m transport.Metadata) error {
 	// remove every earlier session of this client: lost gossip may have left more than one
 	displaced := map[string]struct{}{}
 	for {
-		metadata, err := s.state.SessionMetadatas().ByClientID(session.ClientID())
+		metadata, err := s.state.SessionMetadatas().ByClientID(session.ClientID(), session.MountPoint())
 		if err != nil {
 			break
 		}
@@ -241,7 +241,7 @@ func (s *manager) shutdownSession(ctx context.Context, session *sessions.Session
 	for idx := range topics {
 		s.state.Subscriptions().Delete(session.ID(), topics[idx])
 	}
-	metadata, err := s.state.SessionMetadatas().ByClientID(session.ClientID())
+	metadata, err := s.state.SessionMetadatas().ByClientID(session.ClientID(), session.MountPoint())
 	if err == nil {
 		if metadata.SessionID != session.ID() {
 			// Session has reconnected on another peer.
